@@ -69,7 +69,8 @@ def make_case(case, seed, thorough):
         spec.pad13_max = [0, 7, 255][k % 3]
         spec.tickets = k % 2
         spec.group_server_flight = [(1, 1, 1, 1), (4,), (2, 2), (1, 3), (3, 1)][k % 5]
-        spec.hs_secrets = k % 7 != 0
+        spec.hs_secrets = [True, True, False, True, "client", True, "server"][k % 7]
+        spec.explicit_nonce = ["seq", "random", "counter"][k % 3]
         spec.ccs13 = k % 4 != 1
         spec.cert_trap = k % 3 == 1
         spec.shuffle_exts = k % 2 == 0
